@@ -540,12 +540,16 @@ func c26Generate(r *verifh.Run) []string {
 		}
 	}
 	// stress: free-running rounds of {job whose tasks all fail at the same moment, clean job}
-	for _, wk := range []int{32, 2, 32, 5, 32, 16, 32, 9, 32, 24, 32, 3, 32} {
-		rounds := r.N(900, 12000)
-		if wk != 32 {
-			rounds /= 6
+	// (measured on the seeded late-error change with the lock contention below, load average
+	// 15-40 on 16 cores: a 500-round line hits in 25-38 of 40 tries for every worker count,
+	// i.e. first hit after ~170-500 rounds; the quick budget is 4100 rounds in 10 pools, ~2-5 s)
+	for _, wr := range [][2]int{{32, 500}, {2, 500}, {64, 300}, {5, 400}, {16, 400}, {32, 500}, {3, 400},
+		{9, 300}, {48, 300}, {2, 500}} {
+		rounds := wr[1]
+		if r.Thorough() {
+			rounds *= 12
 		}
-		lines = append(lines, fmt.Sprintf("stress %d %d", wk, rounds))
+		lines = append(lines, fmt.Sprintf("stress %d %d", wr[0], rounds))
 	}
 	for c, n := 0, r.N(300, 6000); c < n; c++ {
 		lines = append(lines, fmt.Sprintf("free %d %d %d", g.U64()%1000000007, 1+g.Intn(16), 1+g.Intn(6)))
@@ -845,6 +849,32 @@ func c26Serial(r *verifh.Run, bits []string) string {
 func c26Stress(r *verifh.Run, wk, rounds int) bool {
 	p := NewParallel(wk, 4)
 	lost, leaked := 0, 0
+	// contention on the pool's lock (the harness is in-package): goroutines that keep taking
+	// and releasing w.lock make a worker that still has to record its error likely to block
+	// there, which is when the order "completion count first, error second" is exposed even
+	// on a loaded machine. Harmless for correct code (outcomes stay deterministic).
+	pw := p.(*ParallelWorkers)
+	var stopHammer atomic.Bool
+	var hammers sync.WaitGroup
+	for h := 0; h < 2; h++ {
+		hammers.Add(1)
+		go func() {
+			defer hammers.Done()
+			x := 0
+			for n := 0; !stopHammer.Load(); n++ {
+				pw.lock.Lock()
+				for k := 0; k < 150; k++ {
+					x += k
+				}
+				pw.lock.Unlock()
+				if n%64 == 0 {
+					runtime.Gosched()
+				}
+			}
+			_ = x
+		}()
+	}
+	defer func() { stopHammer.Store(true); hammers.Wait() }()
 	for i := 0; i < rounds; i++ {
 		var arrived atomic.Int32
 		fj, err := p.NewJob(wk)
